@@ -91,6 +91,9 @@ def gen_fault(r):
     # the process survives an engine error; whoever caught the exception may keep it (a notebook's
     # sys.last_value, a test harness), and with it the failed run's connection
     f['retain'] = True
+  if kind == 'busy':
+    # how many statements of the run the other client's transaction stays open
+    f['hold'] = r.choice([1, 1, 2, 3, 4, 6, 100])
   return f
 
 
